@@ -5,7 +5,7 @@ import itertools
 
 from ..core import Prop, Violation
 from .. import cffl
-from ..cffl import GATES, VERDICTS, ODD_VERDICTS, Ob, cfg_line, BUDGETS, BIG_ADVANCES, real_prompt, EXC_TOKENS, EXC_FAMILY
+from ..cffl import GATES, VERDICTS, ODD_VERDICTS, Ob, cfg_line, BUDGETS, BIG_ADVANCES, real_prompt, EXC_TOKENS, EXC_FAMILY, vd
 from ..extract import e2
 
 PERMIT_EXEC = ("EXECUTE", "PERMIT")      # "executor permits"
@@ -23,6 +23,7 @@ def criterion(gate: str, z: str, y: str) -> bool:
     returned on this request: a string, 'exc' = raised, None = that agent was not consulted at all."""
     if z is None or y is None or z in EXC_FAMILY or y in EXC_FAMILY:
         return False
+    z, y = vd(z), vd(y)                  # (whether a payload can be rendered is no part of the verdict)
     zp = z in PERMIT_EXEC
     yp = y == "PERMIT"                   # an approval is the assessor's PERMIT, nothing else
     if gate in ("and", "unanimous"):
@@ -45,7 +46,7 @@ class C07(Prop):
     extractors = ["E2"]
     all_branches = (["set:gate", "set:cache", "set:agents", "nest:2", "nest:3", "nest:4", "nest:all-issued", "energy:refused", "k:circuit_open", "k:cache_hit", "k:agent_exc", "k:gated_success", "k:gated_neither",
                      "k:raised", "token", "cache:shrunk", "cache:replace-or-evict", "set:onblock", "set:onpermit", "hook:block",
-                     "hook:permit", "hook:raised", "exc:unprintable", "k:aborted", "set:silent"]
+                     "hook:permit", "hook:raised", "exc:unprintable", "k:aborted", "set:silent", "payload:unrenderable", "print:raised"]
                     + [f"act:{a}" for a in ("SUCCESS", "BLOCKED", "FAILURE", "SKIPPED", "ERROR")])
     assumptions = [
         "agents return an ActionProtein whose action_type is a str and whose payload is str()-able, or raise an Exception "
@@ -80,7 +81,7 @@ class C07(Prop):
 
     # --- generation --------------------------------------------------------------------------------------
     def generate(self, rng, tier, n):
-        allv = VERDICTS + ["exc"] + ODD_VERDICTS + list(EXC_TOKENS)
+        allv = VERDICTS + ["exc"] + ODD_VERDICTS + list(EXC_TOKENS) + ["u:" + v for v in VERDICTS]
         yield self._cap_case(1003)
         for i in range(n):
             gate = rng.choice(GATES)
@@ -269,7 +270,18 @@ class C07(Prop):
                                            "run 2 BLOCK BLOCK", "run 3 PERMIT PERMIT", "run 3 exc exc"],
                                  "note": "on_block / on_permit callbacks {unset, returns, raises}: a result whose delivery "
                                          "failed in the callback is cached like any other; cache hits call no callback"})
-        spaces.append({"name": "all 6 gate logics x agent exception kinds {KeyError(), __repr__ raises, __str__ raises, "
+        for g in GATES:
+            for z, y in itertools.product(["EXECUTE", "u:EXECUTE", "u:PERMIT", "u:BLOCK", "u:FAILURE", "u:DEFER"],
+                                          ["PERMIT", "u:PERMIT", "u:BLOCK", "u:EXECUTE", "u:DEFER", "BLOCK"]):
+                if not (z.startswith("u:") or y.startswith("u:")):
+                    continue
+                for loud in (False, True):
+                    exck.append({"lines": [cfg_line(g, True, 5, 60_000_000, True, TTL)] + (["set silent 0"] if loud else [])
+                                 + ["set onpermit ok", f"run 1 {z} {y}", f"run 1 {z} {y}", "run 1 PERMIT PERMIT", "run 1 BLOCK BLOCK"],
+                                 "note": "verdicts whose payload cannot be rendered: nothing passes that the verdicts do not "
+                                         "allow, nothing is cached when run() raises out of the gate"})
+        spaces.append({"name": "6 gate logics x 35 verdict pairs with unrenderable payloads x console on / off; "
+                               "all 6 gate logics x agent exception kinds {KeyError(), __repr__ raises, __str__ raises, "
                                "BaseException; executor / assessor} and x on_block / on_permit callbacks {unset, returns, raises}^2 "
                                "x 5 verdict pairs, each followed by repeats", "cases": exck})
         if tier == "thorough":
@@ -300,11 +312,12 @@ class C07(Prop):
                 # raised a BaseException that is no Exception (nobody expects KeyboardInterrupt to become a verdict)
                 if p.startswith("u") or "excB" in (z, y):
                     return None
-                if "excS" in (z, y):
-                    # "any agent exception yields blocked": an exception that cannot be rendered as text escapes the
-                    # handler of run() (open finding C07-unprintable-agent-exception)
-                    out.append(Violation(FINDING2_CLAUSE, "a blocked LoopResult (agent exceptions become blocked ERROR)",
-                                         raw, idx))
+                if "excS" in (z, y) or str(z).startswith("u:") or str(y).startswith("u:"):
+                    # "any agent exception / any other combination yields blocked": an exception - or the payload of a
+                    # verdict - that cannot be rendered as text makes run() raise instead of answering (open finding
+                    # C07-unprintable-agent-exception); nothing passes
+                    out.append(Violation(FINDING2_CLAUSE, "a LoopResult (agent exceptions become blocked ERROR; verdicts are "
+                                         "gated whatever their payload)", raw, idx))
                     return None
                 out.append(Violation("run_returns_a_result", "a LoopResult (agent exceptions become blocked ERROR)",
                                      raw, idx))
@@ -339,7 +352,7 @@ class C07(Prop):
                                          f"blocked (gate={gate} executor={z} assessor={y})", raw, idx))
                 if (z in EXC_FAMILY or y in EXC_FAMILY) and not o.blocked:
                     out.append(Violation("exception_blocks", "blocked", raw, idx))
-                if o.token != "none" and y != "PERMIT":
+                if o.token != "none" and vd(y) != "PERMIT":
                     out.append(Violation("token_only_if_assessor_permitted", "no token", raw, idx))
             # token binding holds for every reply, cached or not
             if o.token != "none":
@@ -415,7 +428,7 @@ class C07(Prop):
         only = self._finding_only.get(tuple(case["lines"])) or []
         if FINDING in only and any(l.startswith("set gate ") for l in case["lines"]):
             return FINDING
-        if FINDING2 in only and any(" excS" in l for l in case["lines"]):
+        if FINDING2 in only and any((" excS" in l or " u:" in l) for l in case["lines"]):
             # open finding C07-unprintable-agent-exception: an agent raised an Exception whose __str__ raises, run() raised
             # instead of answering blocked, and nothing else is wrong with the case
             return FINDING2
